@@ -514,6 +514,15 @@ func EndState(sc *Scenario) (end []EndBar, cancelled bool, ok bool) {
 		if st.Bar < 0 || st.Bar >= len(ms) {
 			continue
 		}
+		if st.Op == "add2" {
+			for _, k := range []int{st.Bar, int(st.N)} {
+				if k >= 0 && k < len(ms) && ms[k] == nil {
+					ms[k] = NewMBar(sc.Bars[k].Total)
+					end[k].Added = true
+				}
+			}
+			continue
+		}
 		if st.Op == "add" {
 			if ms[st.Bar] == nil {
 				ms[st.Bar] = NewMBar(sc.Bars[st.Bar].Total)
